@@ -53,7 +53,7 @@ def needs_sep(a, b):
 
 
 def run(ctx, log):
-    progcheck.run_scale(ctx, log, ['names'])
+    progcheck.run_scale(ctx, log, ['names', 'csc'])
     # comments of every content (several multi-byte characters, trailing backslashes, quotes, code) change nothing
     progcheck.run_comments(ctx, log, mode='tokens')
     rng = ctx.rng
@@ -144,13 +144,16 @@ def run(ctx, log):
             ctx.violate("a string literal made the front end crash", source=s, observed=o[:200], expected="a tree or a syntax error")
     front.front_corr(ctx, raw, ("tok", "parse"), log, label="raw-strings")
     # malformed stream: unterminated strings, illegal characters must be flagged, not dropped
-    bad = ['"abc', '"a\\"', 'a "b', "1 № 2", "a & b", "a | b", "x # y", " a", "a &| b", "a |& b", "a &&& b", "a ||| b", "a &&| b", "a |&& b", "a & & b", "a &= b", "a |= b"]
+    bad = ['"abc', '"a\\"', 'a "b', "1 № 2", "a & b", "a | b", "x # y", " a", "a &| b", "a |& b", "a &&& b", "a ||| b", "a &&| b", "a |&& b", "a & & b", "a &= b", "a |= b", "1 } 2", "stel a = 1 } a", "{ } } 1", "1 ) 2", "1 ] 2", "als ja { 1 } } 2", "functie f() { 1 } } f()", "1 } print(\"weg\")"]
     bobs = vlib.nlh("parse", [vlib.hexs(s) for s in bad], tag="c08b")
     for s, o in zip(bad, bobs):
         ctx.seen(s)
         if o != "ERR Syntax":
             ctx.violate("an illegal character / unterminated string did not make the program a syntax error (input silently dropped)", source=s, observed=o[:200], expected="ERR Syntax")
     front.front_corr(ctx, bad, ("tok", "parse"), log, label="malformed")
+    for s_, o_ in zip(bad, vlib.nlh("eval", ["1000 " + vlib.hexs(x) for x in bad], tag="c08be")):
+        if not o_.startswith("ERR Syntax") or "OUT -" not in o_:
+            ctx.violate("a malformed text was evaluated (part of it silently dropped)", source=s_, observed=o_[:200], expected="ERR Syntax | OUT -")
     # two string literals next to each other (the optional comma / semicolon left out): each is decoded on its own
     esc = ["a\tb", "q\"r", "back\\slash", "é\n", "{}\t"]
     plain = ["----", "", "é", "x y"]
